@@ -59,6 +59,11 @@ pub enum K {
     PopFront,
     Read(u16),
     CloneA,
+    /// `B.clone_from(&A)`: B exists (possibly with placeholders of its own pending) and is overwritten
+    CloneFromA,
+    /// clone A while it has placeholders pending: the clone cannot backfill them (the tokens are not
+    /// clonable), so they stay hidden in it for good
+    ClonePending,
     DropSide,
     HoldRead(u16),
     HeldPush,
@@ -105,6 +110,8 @@ impl Op {
             K::PopFront => "pop_front".to_string(),
             K::Read(n) => format!("read({})", n),
             K::CloneA => "clone".to_string(),
+            K::CloneFromA => "clone_from_A_into_B".to_string(),
+            K::ClonePending => "clone_while_pending".to_string(),
             K::DropSide => "drop".to_string(),
             K::HoldRead(n) => format!("hold_read({})", n),
             K::HeldPush => "held_push".to_string(),
@@ -148,6 +155,8 @@ impl Op {
             ("pop_front", None) => K::PopFront,
             ("read", Some(n)) => K::Read(n as u16),
             ("clone", None) => K::CloneA,
+            ("clone_from_A_into_B", None) => K::CloneFromA,
+            ("clone_while_pending", None) => K::ClonePending,
             ("drop", None) => K::DropSide,
             ("hold_read", Some(n)) => K::HoldRead(n as u16),
             ("held_push", None) => K::HeldPush,
@@ -200,7 +209,8 @@ impl Start {
 }
 
 struct Pending {
-    token: Backref,
+    /// None for the placeholders a clone inherited: it has no token to backfill them with
+    token: Option<Backref>,
     pos: usize,
     len: usize,
     id: u32,
@@ -458,6 +468,9 @@ impl Exec {
         match op.k {
             K::Backfill(i) => {
                 let n = side.pending.len();
+                if side.pending.iter().any(|p| p.token.is_none()) {
+                    return false; // a clone cannot backfill what it inherited
+                }
                 match i {
                     255 => n >= 1,
                     i => n > i as usize && !(i as usize == n - 1 && n >= 1 && false),
@@ -466,6 +479,8 @@ impl Exec {
             K::Register(_) => side.pending.len() < 7,
             K::PopFront => !side.iov.stable_prefix().is_empty(),
             K::CloneA => op.side == 0 && self.sides[1].is_none() && side.pending.is_empty(),
+            K::CloneFromA => op.side == 0 && self.sides[1].is_some() && side.pending.is_empty() && self.sides[1].as_ref().map(|b| b.pending.iter().all(|p| p.token.is_some())).unwrap_or(false),
+            K::ClonePending => op.side == 0 && self.sides[1].is_none() && !side.pending.is_empty(),
             K::Take => op.side == 0 && self.sides[1].is_none(),
             K::DropSide => self.sides[0].is_some() && self.sides[1].is_some(),
             K::HoldRead(_) => self.held.len() < 3,
@@ -546,7 +561,7 @@ impl Exec {
                         return Err("[content] backfilling an empty token changed the contents".into());
                     }
                 } else {
-                    s.pending.push(Pending { token, pos, len: n as usize, id });
+                    s.pending.push(Pending { token: Some(token), pos, len: n as usize, id });
                 }
             }
             K::Backfill(i) => {
@@ -554,7 +569,7 @@ impl Exec {
                 let idx = if i == 255 { s.pending.len() - 1 } else { i as usize };
                 let p = s.pending.remove(idx);
                 let value: Vec<u8> = (0..p.len).map(|j| 0xB0 + ((p.id as usize * 3 + j) % 16) as u8).collect();
-                s.iov.backfill_or_panic(p.token, &value);
+                s.iov.backfill_or_panic(p.token.expect("enabled() keeps tokenless placeholders out"), &value);
                 for (j, b) in value.iter().enumerate() {
                     s.model[p.pos + j] = Cell::Byte(*b);
                 }
@@ -687,6 +702,27 @@ impl Exec {
                     model: s.model[s.consumed..].to_vec(),
                     consumed: 0,
                     pending: Vec::new(),
+                };
+                self.sides[1] = Some(copy);
+                self.ever_two_sides = true;
+            }
+            K::CloneFromA => {
+                let (sa, sb) = self.sides.split_at_mut(1);
+                let a = sa[0].as_ref().unwrap();
+                let b = sb[0].as_mut().unwrap();
+                b.iov.clone_from(&a.iov);
+                b.model = a.model[a.consumed..].to_vec();
+                b.consumed = 0;
+                b.pending.clear(); // B's own placeholders are gone with its old contents
+                self.ever_two_sides = true;
+            }
+            K::ClonePending => {
+                let s = self.sides[0].as_ref().unwrap();
+                let copy = Side {
+                    iov: s.iov.clone(),
+                    model: s.model[s.consumed..].to_vec(),
+                    consumed: 0,
+                    pending: s.pending.iter().map(|p| Pending { token: None, pos: p.pos - s.consumed, len: p.len, id: p.id }).collect(),
                 };
                 self.sides[1] = Some(copy);
                 self.ever_two_sides = true;
@@ -838,9 +874,15 @@ impl Exec {
         for si in 0..2 {
             let Some(s) = self.sides[si].as_mut() else { continue };
             let who = if si == 0 { "A" } else { "B" };
+            if s.pending.iter().any(|p| p.token.is_none()) {
+                // a clone that inherited placeholders can never show what lies behind them: it is
+                // only checked once more and dropped
+                s.oracle(who).map_err(|e| format!("at the end: {}", e))?;
+                continue;
+            }
             while let Some(p) = s.pending.pop() {
                 let value: Vec<u8> = (0..p.len).map(|j| 0xB0 + ((p.id as usize * 3 + j) % 16) as u8).collect();
-                s.iov.backfill_or_panic(p.token, &value);
+                s.iov.backfill_or_panic(p.token.unwrap(), &value);
                 for (j, b) in value.iter().enumerate() {
                     s.model[p.pos + j] = Cell::Byte(*b);
                 }
